@@ -561,3 +561,95 @@ func ruleCipherIsBuiltFromTheValuesKey(c *eng.Ctx) {
 		c.Unresolved("the Seal / Open calls of encryptData and decryptData")
 	}
 }
+
+// ruleElectionIsForTheReportedLeaderEpoch (R07.11, F104): a quorum of witnesses reports ONE leader generation. Between the
+// moment failoverStatus.report decides and the moment electNewPartitionLeader reads the partition's leader, another election
+// for the same reports may have installed a new leader; the election must then refuse instead of deposing a leader nobody
+// reported. So (a) report hands the epoch the quorum was counted for to Failover, and (b) electNewPartitionLeader proposes
+// the change only when the leader epoch it reads equals the one it was handed.
+func ruleElectionIsForTheReportedLeaderEpoch(c *eng.Ctx) {
+	if fn := c.Fn("server.(*failoverStatus).report"); fn != nil {
+		ok, n := false, 0
+		eng.Instrs(fn, func(in ssa.Instruction) {
+			call, isCall := in.(*ssa.Call)
+			if !isCall || !call.Call.IsInvoke() || call.Call.Method.Name() != "Failover" {
+				return
+			}
+			n++
+			for _, a := range call.Call.Args {
+				if eng.Param("epoch")(a) {
+					ok = true
+				}
+			}
+		})
+		if n == 0 {
+			c.Unresolved("the Failover call of failoverStatus.report")
+		} else {
+			c.Check(ok, "the election is told which leader epoch the quorum reported", c.P.Pos(fn.Pos()), "f.failover.Failover(ctx, epoch)", "failoverStatus.report starts the election without saying which leader epoch the quorum reported: the election reads the partition's leader on its own, later, when it may already have been replaced")
+		}
+	}
+	fn := c.Fn("server.(*metadataAPI).electNewPartitionLeader")
+	if fn == nil {
+		return
+	}
+	props := eng.CallsIn(fn, "server.raftNode.applyOperation")
+	if len(props) == 0 {
+		c.Unresolved("the applyOperation call of electNewPartitionLeader")
+		return
+	}
+	readEpoch := eng.Call(1, "server.partition.GetLeader")
+	handed := func(v ssa.Value) bool {
+		pr, ok := eng.Strip(v).(*ssa.Parameter)
+		if !ok {
+			return false
+		}
+		b, isB := pr.Type().Underlying().(*types.Basic)
+		return isB && b.Kind() == types.Uint64
+	}
+	same := eng.CmpEdges(fn, readEpoch, handed, eng.EQ)
+	for _, pc := range props {
+		g, w := eng.GuardedBy(fn, pc.(ssa.Instruction), same)
+		c.Check(g && len(same) > 0, "a new partition leader is elected only for the leader epoch the witnesses reported", c.Pos(pc.(ssa.Instruction)), "the leader epoch read by the election equals the reported one, else FailedPrecondition", "electNewPartitionLeader proposes a leader change without comparing the leader epoch it reads with the one the witnesses reported ("+w.String()+"): when two quorums form for the same failed leader (an in-sync set of four or more, reports repeated while the first change is still in Raft), the second election takes the freshly installed leader for the old one and deposes it although nobody reported it — an extra leader change, a second epoch bump and another truncation on every follower")
+	}
+}
+
+// ruleLeadershipChannelIsClosedOnce (R18.3 extension, F105): leadershipLost can follow a leadershipAcquired that failed before
+// activity.BecomeLeader replaced the channel (the Raft barrier answered ErrLeadershipLost). BecomeFollower then sees the channel
+// it closed at the end of the previous term; closing it again is a panic that kills the server. So whatever BecomeFollower
+// closes it forgets, and — because the field is nil between terms — the dispatcher waits on the channel of its own term,
+// handed to it when it is started, not on the field.
+func ruleLeadershipChannelIsClosedOnce(c *eng.Ctx) {
+	isField := func(fa *ssa.FieldAddr) bool { return eng.FieldNameOf(fa) == "leadershipLostCh" }
+	if fn := c.Fn("server.(*activityManager).BecomeFollower"); fn != nil {
+		var closes []ssa.Instruction
+		eng.Instrs(fn, func(in ssa.Instruction) {
+			if call, ok := in.(*ssa.Call); ok && isBuiltinCall(call, "close") && eng.LoadNamed("leadershipLostCh", nil)(call.Call.Args[0]) {
+				closes = append(closes, in)
+			}
+		})
+		if len(closes) == 0 {
+			c.Unresolved("the close of leadershipLostCh in BecomeFollower")
+		} else {
+			forgets := func(in ssa.Instruction) bool {
+				st, ok := in.(*ssa.Store)
+				if !ok {
+					return false
+				}
+				fa, ok := st.Addr.(*ssa.FieldAddr)
+				return ok && isField(fa) && eng.NilConst(st.Val)
+			}
+			q := &eng.PathQuery{Fn: fn, FromAfter: closes, Target: isReturn, CutInstr: forgets}
+			w := q.Find()
+			c.Check(w == nil, "the channel BecomeFollower closes is forgotten", c.Pos(closes[0]), "close(a.leadershipLostCh); a.leadershipLostCh = nil", "BecomeFollower closes leadershipLostCh and keeps it ("+w.String()+"): when the next promotion fails before BecomeLeader replaces the channel (raft.Barrier answers ErrLeadershipLost), the following leadershipLost closes the same channel again — `close of closed channel` kills the server, and with it the dispatcher of every later term")
+		}
+	}
+	if fn := c.Fn("server.(*activityManager).dispatch"); fn != nil {
+		reads := 0
+		eng.Instrs(fn, func(in ssa.Instruction) {
+			if fa, ok := in.(*ssa.FieldAddr); ok && isField(fa) {
+				reads++
+			}
+		})
+		c.Check(reads == 0, "the dispatcher waits on the channel of its own term", c.P.Pos(fn.Pos()), "dispatch selects on the channel it was started with, not on the activityManager field", "dispatch reads the field leadershipLostCh at every select: the field is rewritten by the next BecomeLeader (unsynchronised), so a dispatcher that was busy while leadership was lost and regained never sees its term end and runs beside the new one — events published twice and out of order")
+	}
+}
